@@ -141,7 +141,7 @@ def bounded_der(which):
     import numpy as np
     rng = np.random.default_rng(Int('seed', 0, 10 ** 6))
     P = 'prysm.polynomials.'
-    x = rng.uniform(-0.8, 0.8, 7)
+    x = vary_layout(rng, rng.uniform(-0.8, 0.8, 7))      # contiguous or strided
     tol = dict(rtol=2e-6, atol=2e-6)
     ok = True
     if which == 'jacobi_der':
